@@ -86,3 +86,64 @@ def exits(eng, outs, ensure=None, raises=None, label="", prop=None, replay=None,
         else:
             raise Unsupported(f"{kind} escaping function")
     return eng.obligations
+
+
+# ------------------------------------------------------------------------------------------------ loop-carried locals a unit does not know
+def unknown_loop_locals(fn_node, loop_node, known):
+    """Names assigned inside `loop_node` - directly, or through `nonlocal` by a nested function the loop calls - that are not in
+    `known`, with the shapes of the values assigned to them anywhere in the function:
+        {name: [("const", v) | ("tuple", k) | ("opaque",)]}
+    A unit havocs them at the loop head (one head per combination of shapes), so that a change that introduces a new piece of
+    loop-carried state is explored with every value it may hold instead of only its initial one."""
+    import ast as _ast
+    assigned = {n.id for n in _ast.walk(loop_node) if isinstance(n, _ast.Name) and isinstance(n.ctx, _ast.Store)}
+    called = {n.func.id for n in _ast.walk(loop_node) if isinstance(n, _ast.Call) and isinstance(n.func, _ast.Name)}
+    for d in _ast.walk(fn_node):
+        if isinstance(d, _ast.FunctionDef) and d is not fn_node and d.name in called:
+            nl = {x for n in _ast.walk(d) if isinstance(n, _ast.Nonlocal) for x in n.names}
+            assigned |= {n.id for n in _ast.walk(d) if isinstance(n, _ast.Name) and isinstance(n.ctx, _ast.Store) and n.id in nl}
+    out = {}
+    for name in sorted(assigned - set(known)):
+        shapes = []
+        for n in _ast.walk(fn_node):
+            if isinstance(n, _ast.Assign) and any(isinstance(t, _ast.Name) and t.id == name for t in n.targets):
+                v = n.value
+                if isinstance(v, _ast.Constant):
+                    sh = ("const", v.value)
+                elif isinstance(v, _ast.Tuple) and not any(isinstance(e_, _ast.Starred) for e_ in v.elts):
+                    sh = ("tuple", len(v.elts))
+                else:
+                    sh = ("opaque",)
+                if sh not in shapes:
+                    shapes.append(sh)
+        out[name] = shapes or [("opaque",)]
+    return out
+
+
+def havoc_unknown_locals(e, heads, unknown, tag):
+    """split every head by the shapes of the unknown names; values of tuple shape are fresh integers"""
+    import itertools as _it
+    names = sorted(unknown)
+    if not names:
+        return heads
+    out = []
+    for h in heads:
+        for combo in _it.product(*[unknown[n] for n in names]):
+            h2 = e.fork(h)
+            for n, sh in zip(names, combo):
+                if sh[0] == "const":
+                    h2.set_local(n, sh[1]) if hasattr(h2, "set_local") else _set_any_frame(h2, n, sh[1])
+                elif sh[0] == "tuple":
+                    _set_any_frame(h2, n, tuple(z3.Int(f"{n}{i}!{tag}") for i in range(sh[1])))
+                else:
+                    _set_any_frame(h2, n, Opaque(n))
+            out.append(h2)
+    return out
+
+
+def _set_any_frame(s, name, value):
+    for f in reversed(s.frames):
+        if name in f:
+            f[name] = value
+            return
+    s.frames[-1][name] = value
